@@ -388,7 +388,7 @@ pub fn generate(prop: &str, rng: &mut Rng, skip_fast: bool, run_index: u64) -> (
                     p.switch_methods = rng.chance(1, 4);
                 }
                 "C06" => p.switch_methods = rng.chance(1, 4),
-                "C17" => p.peek = rng.chance(1, 3),
+                "C17" => p.peek = true,
                 "C10" => {
                     // faults concentrated in the first bytes
                     p.seg = rng.pick(&[0u8, 0, 1, 2, 4]);
@@ -436,7 +436,7 @@ pub fn generate(prop: &str, rng: &mut Rng, skip_fast: bool, run_index: u64) -> (
                     p.submin = rng.chance(1, 3);
                     p.submin_any_kind = true;
                 }
-                "C17" => p.peek = rng.chance(1, 3),
+                "C17" => p.peek = true,
                 _ => {}
             }
             (Case::Enc { spec, ops: Vec::new() }, p)
@@ -723,9 +723,11 @@ fn ladder() -> Vec<usize> {
 /// C17: the values of a query over the whole ladder, folded into the run's
 /// transcript (a panic is a value too: the assertion-carrying build must not
 /// panic where the other build answers, and vice versa).
-fn ladder_digest(name: &str, d: &std::cell::RefCell<crate::rng::Digest>, f: &dyn Fn(usize) -> Option<usize>) {
+fn ladder_digest(name: &str, short: bool, d: &std::cell::RefCell<crate::rng::Digest>, f: &dyn Fn(usize) -> Option<usize>) {
     let mut line = String::new();
-    for n in ladder() {
+    let m = usize::MAX;
+    let rungs = if short { vec![0usize, 1, 2, 3, 100, 1 << 16, m / 4, m / 3, m / 2, m - 2, m - 1, m] } else { ladder() };
+    for n in rungs {
         let r = crate::sink::guard(|| f(n));
         let mut d = d.borrow_mut();
         match r {
@@ -808,12 +810,14 @@ fn exec_dec(prop: &str, spec: &DecSpec, source: &mut dyn OpSource) -> RunOut {
         _ => check_ladder("max_utf16_buffer_length", &|n| d.max_utf16_buffer_length(n)),
     };
     let qd = std::cell::RefCell::new(crate::rng::Digest::new());
-    let mut peek17 = |d: &Decoder, _s: &DecSpec, _calls: &[CallRec], _consumed: usize, _pending: &[u8], _what: u8| {
-        ladder_digest("max_utf8_buffer_length", &qd, &|n| d.max_utf8_buffer_length(n));
-        ladder_digest("max_utf8_buffer_length_without_replacement", &qd, &|n| d.max_utf8_buffer_length_without_replacement(n));
-        ladder_digest("max_utf16_buffer_length", &qd, &|n| d.max_utf16_buffer_length(n));
+    let mut peek17 = |d: &Decoder, _s: &DecSpec, _calls: &[CallRec], _consumed: usize, _pending: &[u8], what: u8| {
+        let short = what == 255;
+        ladder_digest("max_utf8_buffer_length", short, &qd, &|n| d.max_utf8_buffer_length(n));
+        ladder_digest("max_utf8_buffer_length_without_replacement", short, &qd, &|n| d.max_utf8_buffer_length_without_replacement(n));
+        ladder_digest("max_utf16_buffer_length", short, &qd, &|n| d.max_utf16_buffer_length(n));
         Vec::new()
     };
+    crate::sink::set_peek_every_call(prop == "C17");
     let run = match prop {
         "C19" => drive_dec(spec, mode, source, Some(&mut peek19)),
         "C07" => drive_dec(spec, mode, source, Some(&mut peek07)),
@@ -1071,13 +1075,15 @@ fn exec_enc(prop: &str, spec: &EncSpec, source: &mut dyn OpSource) -> RunOut {
         _ => check_ladder("max_buffer_length_from_utf16_if_no_unmappables", &|n| e.max_buffer_length_from_utf16_if_no_unmappables(n)),
     };
     let qd = std::cell::RefCell::new(crate::rng::Digest::new());
-    let mut peek17 = |e: &Encoder, _what: u8| {
-        ladder_digest("max_buffer_length_from_utf8_without_replacement", &qd, &|n| e.max_buffer_length_from_utf8_without_replacement(n));
-        ladder_digest("max_buffer_length_from_utf8_if_no_unmappables", &qd, &|n| e.max_buffer_length_from_utf8_if_no_unmappables(n));
-        ladder_digest("max_buffer_length_from_utf16_without_replacement", &qd, &|n| e.max_buffer_length_from_utf16_without_replacement(n));
-        ladder_digest("max_buffer_length_from_utf16_if_no_unmappables", &qd, &|n| e.max_buffer_length_from_utf16_if_no_unmappables(n));
+    let mut peek17 = |e: &Encoder, what: u8| {
+        let short = what == 255;
+        ladder_digest("max_buffer_length_from_utf8_without_replacement", short, &qd, &|n| e.max_buffer_length_from_utf8_without_replacement(n));
+        ladder_digest("max_buffer_length_from_utf8_if_no_unmappables", short, &qd, &|n| e.max_buffer_length_from_utf8_if_no_unmappables(n));
+        ladder_digest("max_buffer_length_from_utf16_without_replacement", short, &qd, &|n| e.max_buffer_length_from_utf16_without_replacement(n));
+        ladder_digest("max_buffer_length_from_utf16_if_no_unmappables", short, &qd, &|n| e.max_buffer_length_from_utf16_if_no_unmappables(n));
         Vec::new()
     };
+    crate::sink::set_peek_every_call(prop == "C17");
     let run = match prop {
         "C07" => drive_enc(spec, mode, source, Some(&mut peek07)),
         "C17" => drive_enc(spec, mode, source, Some(&mut peek17)),
